@@ -10,6 +10,7 @@ from ..px import OK, PX, RAISE, Outcomes
 from ..pxv import Obj, Sym
 from ..te import Member, TypeRef
 from .ash_link import ASH, ash_cls, inline_ash
+from .util import anchor_attrs
 from .util import const, fut, same_class, self_obj, text
 
 UART = "bellows.uart"
@@ -46,6 +47,7 @@ def r11_2(ctx):
     and only if the code is the software-reset code (the pending reset request first, else the start-up waiter,
     never a completed one); every other code completes nothing and is handed to the application as an NCP failure
     exactly once."""
+    anchor_attrs(ctx, "Gateway", "_reset_future", "_startup_reset_future", "_application", "_transport")
     repo = ctx.repo
     f = repo.func(f"{UART}:Gateway.reset_received")
     ctx.fn(f)
@@ -253,6 +255,7 @@ def r10_2(ctx):
     connection_lost(reason); EZSP._command raises without reaching the protocol handler when EZSP is stopped;
     AshProtocol._write_frame raises without writing when the transport is gone or closing, and nothing else writes
     to the transport."""
+    anchor_attrs(ctx, "EZSP", "_callbacks", "_gw", "_ezsp_event", "_protocol")
     repo = ctx.repo
     ez = repo.cls(EZ, "EZSP")
     f = repo.func(f"{EZ}:EZSP.enter_failed_state")
@@ -345,6 +348,7 @@ def r10_3(ctx):
     one '_reset_controller_application' request carrying the reason, EZSP has been stopped and the link closed before
     it, and nothing raises on the way (so the request cannot be lost to an exception in close()); a deliberate close
     (connection_lost(None)) and a software-reset acknowledgement produce no request."""
+    anchor_attrs(ctx, "EZSP", "_callbacks", "_gw", "_ezsp_event"); anchor_attrs(ctx, "Gateway", "_application", "_transport"); anchor_attrs(ctx, "AshProtocol", "_ezsp_protocol", "_transport")
     repo = ctx.repo
     rc = repo.cls(NAMED, "NcpResetCode")
     soft = rc.members()["RESET_SOFTWARE"]
